@@ -28,3 +28,8 @@ pub open spec fn alive_after<P: Spawner<A>, A: Actor>(w: &World, t: int, retaine
 // ghost name of the runtime task that runs the loop future whose notifier resolves running slot `s` (a loop future is spawned at most once)
 pub uninterp spec fn slot_task(s: int) -> int;
 pub open spec fn spawned_here(pre: &World, post: &World, t: int) -> bool { !pre.tasks.dom().contains(t) && post.tasks.dom().contains(t) }
+pub open spec fn spawned_one<P: Spawner<A>, A: Actor>(pre: &World, post: &World, t: int, retained: bool, info: LoopInfo) -> bool {
+    &&& spawned_here(pre, post, t) && alive_after::<P, A>(post, t, retained) && post.task_info[t] == info
+    &&& t == slot_task(info.slot)
+    &&& post.tasks.dom() =~= pre.tasks.dom().insert(t)
+}
